@@ -66,7 +66,7 @@ class Run:
 
     def finish(self, assumptions, required=(), exhaustive=True, note=None):
         missing = [x for x in required if not any(k == x or k.startswith(x) for k in self.cov)]
-        if missing:
+        if missing and not self.bad:      # (a run that ends in violations may not have reached every rule)
             raise ToolError("vacuous run for %s: rules never exercised: %s (have %s)" % (self.pid, missing, sorted(self.cov)))
         findings = load_findings()
         nbad = 0
@@ -223,7 +223,8 @@ def run_wire(pid, tier, seed, replay):
         run.traces += int(res.get("harness", {}).get("universes", 0) or res.get("harness", {}).get("ran", 0) or res.get("harness", {}).get("histories", 0) or 0)
     if pid in ("C10", "C11"):
         # the handler-level part: every command kind / outcome through decode -> handle -> encode, arithmetic checked
-        rr = seqlib.gen_and_validate([("general", 30 * n, seed * 1000 + 1), ("counter", 30 * n, seed * 1000 + 2), ("cas", 20 * n, seed * 1000 + 3)], "rand-" + pid)
+        rr = seqlib.gen_and_validate([("general", 30 * n, seed * 1000 + 1), ("counter", 30 * n, seed * 1000 + 2), ("cas", 20 * n, seed * 1000 + 3),
+                                      ("huge", 4 * n, seed * 1000 + 4), ("huge", 4 * n, seed * 1000 + 5)], "rand-" + pid)
         for r in rr:
             run.add_result({"driver": "gen-seq", "args": ["gen-seq", "--profile", r["job"][0], "--count", r["job"][1], "--seed", r["job"][2]],
                             "spec": "MemcTrace", "desc": "handler level %s" % r["job"][0]}, r)
@@ -431,7 +432,7 @@ def absorb_lin(run, job, res):
         # with eviction on, a history is only required to complete (C16) and to respect the memory bound at
         # quiescence (C14): MemcLin's relaxed mode rejects a complete one only for the bound
         if desc.get("kind") in ("C16", "C14") and not incomplete:
-            res["violations"].append({"tags": ["C14"], "rule": "bound.exceeded.at.quiescence", "line": rej["line"],
+            res["violations"].append({"tags": ["C14", "C15"], "rule": "bound.or.accounting.wrong.at.quiescence", "line": rej["line"],
                                       "name": desc["name"], "init": desc["init"]})
             continue
         tags = {"C16"} if incomplete else ({"C04"} if desc["kind"] == "C04" else {"C03"})
